@@ -287,13 +287,23 @@ func runMerge(t *testing.T, st *Store, baseSum []byte, otherSums [][]byte, hashB
 		return nil, err
 	}
 	defer merger.Close()
+	// merge phase 1: the merger busy-polls, so store reads are not parked (DESIGN 2.3)
+	if st.Sched != nil {
+		st.Sched.SetActive(false)
+	}
 	mch, err := merger.Start()
 	if err != nil {
+		if st.Sched != nil {
+			st.Sched.SetActive(true)
+		}
 		return nil, err
 	}
 	var merges []*merge.Merge
 	for m := range mch { // drain first, as collectMergeConflicts does
 		merges = append(merges, m)
+	}
+	if st.Sched != nil {
+		st.Sched.SetActive(true)
 	}
 	if err = merger.Error(); err != nil {
 		return nil, err
